@@ -2162,7 +2162,7 @@ pub fn run(run: &Run) {
 	// stage 2: value domain x numeric conversions x decorations
 	run_stage(run, "values", values_cases(), 120);
 	// stage 3: random compositions
-	let n: u64 = run.tier.pick(12_000, 480_000);
+	let n: u64 = run.tier.pick(60_000, 600_000);
 	let cases: Vec<Case> = (0..n).map(|i| mix_case(i, run.seed)).collect();
 	run_stage(run, "mix", cases, 120);
 	// stage 4: large widths and precisions
